@@ -71,6 +71,8 @@ struct Case {
     ret: String,         // list | tuple | ndarray
     probe_empty: bool,   // also call sol(np.array([])) (k = 0)
     doc: bool,           // every option form used is documented by the binding (false: Level-B expectation only, drift)
+    jac_source: String,  // "" (derive from `jac`) | callable | const | fd-grouped | fd-dense : the Jacobian source PyLayer's jacsrc machine
+                         // names for this combination of jac / jac_sparsity; the reference run is configured from it
     census: bool,        // also count, per event function, the crossings in each direction (all events non-terminal): scenario adequacy
 }
 
@@ -194,7 +196,12 @@ fn run_case(c: &Case) -> serde_json::Value {
         .build();
     let (t0, tf) = (untok(&c.t0), untok(&c.tf));
     let y0 = untoks(&c.y0);
-    let user_jac = c.jac != "none";
+    let user_jac = match c.jac_source.as_str() {
+        "" => c.jac != "none",
+        "callable" | "const" => true,          // the user's Jacobian (Prob::jacobian; the constant matrix is the same function of y0)
+        "fd-grouped" | "fd-dense" => false,    // finite differences (IVP::jac default); a pattern changes evaluation counts only
+        k => panic!("jac_source {k}"),
+    };
     let res = catch(|| {
         if user_jac { solve_ivp(&WithJac(&prob), t0, tf, &y0, opts) } else { solve_ivp(&NoJac(&prob), t0, tf, &y0, opts) }
     });
@@ -270,13 +277,17 @@ struct Scen {
     #[serde(default)] ngroups: i64,
     #[serde(default)] doc: bool,
     #[serde(default)] njev: String,
+    #[serde(default)] jac: String,          // kind "jacsrc": form of `jac`, container of `jac_sparsity`, source the specification expects
+    #[serde(default)] sp: String,
+    #[serde(default)] source: String,
     #[serde(default)] evs: Vec<ScenEv>,     // kind "evlist": per event function the attribute forms and the parse result the specification expects
 }
 #[derive(Deserialize, Clone, Debug, Default)]
 struct ScenEv { terminal: String, direction: String, rterm: i64, rdir: i64, doc: bool }
 
 struct Tables { methods: Vec<Scen>, tols: Vec<Scen>, steps: Vec<Scen>, evattrs: Vec<Scen>, jacs: Vec<Scen>,
-                shapes: Vec<Scen>, patterns: Vec<Scen>, evundoc: Vec<Scen>, spforms: Vec<Scen>, evlists: Vec<Scen> }
+                shapes: Vec<Scen>, patterns: Vec<Scen>, evundoc: Vec<Scen>, spforms: Vec<Scen>, evlists: Vec<Scen>,
+                jacsrcs: Vec<Scen> }
 
 fn d(x: f64) -> String { tok(x) }
 
@@ -665,6 +676,55 @@ fn gen_cases(tb: &Tables, seed: u64, tier: &str) -> Vec<Case> {
             out.push(c);
         }
     }
+    // 8. Jacobian SOURCES (PyLayer machine jacsrc): every combination of jac in {absent, callable, constant C / Fortran array}
+    //    with jac_sparsity in {absent, every container form} x {Radau, BDF}.  The Rust reference uses the source the
+    //    specification names (user Jacobian if jac is given, else finite differences; a pattern changes evaluation counts
+    //    only).  Problems: "lin" with a structurally non-symmetric 3x3 pattern (rotating) and, for absent / callable jac, the
+    //    nonlinear "vdp" (state-dependent Jacobian).  When jac is given the pattern must not matter at all: besides the true
+    //    pattern a deliberately NARROWER one (diagonal only) is passed -- if it were used the numbers would change grossly.
+    {
+        let named: [Vec<Vec<i64>>; 3] = [
+            vec![vec![1, 0, 0], vec![1, 1, 0], vec![0, 1, 1]],
+            vec![vec![1, 0, 0], vec![1, 1, 0], vec![1, 0, 1]],
+            vec![vec![1, 1, 1], vec![0, 1, 0], vec![0, 0, 1]],
+        ];
+        let find = |rows: &Vec<Vec<i64>>| tb.patterns.iter().find(|s| s.n == rows.len() && &s.rows == rows)
+            .unwrap_or_else(|| panic!("scenario table lacks pattern {:?}", rows));
+        let mut k = 0usize;
+        for s in tb.jacsrcs.iter() {
+            for m in ["Radau", "BDF"] {
+                k += 1;
+                let true_rows = named[k % 3].clone();
+                // (problem, true pattern of its Jacobian, declared pattern)
+                let mut variants: Vec<(&str, Vec<Vec<i64>>, Vec<Vec<i64>>)> = vec![("lin", true_rows.clone(), true_rows.clone())];
+                if s.jac == "none" || s.jac == "callable" {
+                    let v = vec![vec![0, 1], vec![1, 1]];
+                    variants.push(("vdp", v.clone(), v));
+                }
+                if s.jac != "none" && s.sp != "none" {
+                    variants.push(("lin", true_rows.clone(), vec![vec![1, 0, 0], vec![0, 1, 0], vec![0, 0, 1]]));
+                }
+                for (p, truth, declared) in variants {
+                    let mut c = base_case(p, truth.len());
+                    if p == "lin" { c.a = lin_from_pattern(&truth); }
+                    set_method(&mut c, canonical(tb, m));
+                    match s.jac.as_str() {
+                        "none" => {}
+                        "callable" => { c.jac = "callable".into(); c.jac_form = "callable".into(); }
+                        f => { c.jac = "const".into(); c.jac_form = f.into(); }
+                    }
+                    if s.sp != "none" {
+                        let g = find(&declared);
+                        c.has_sparsity = true;
+                        c.pat = Pat { n: truth.len(), rows: declared.clone(), form: s.sp.clone(), groups: g.groups.clone(), ngroups: g.ngroups };
+                    }
+                    c.jac_source = s.source.clone();
+                    c.class = (if declared == truth { "jac-source" } else { "jac-source-narrow-pattern" }).into();
+                    out.push(c);
+                }
+            }
+        }
+    }
     for (i, c) in out.iter_mut().enumerate() { c.id = format!("k{:05}", i + 1); }
     out
 }
@@ -682,7 +742,8 @@ fn load_tables(path: &str) -> Tables {
     let pick = |k: &str| all.iter().filter(|s| s.kind == k).cloned().collect::<Vec<_>>();
     let mut tb = Tables { methods: pick("method"), tols: pick("tol"), steps: pick("step"), evattrs: pick("evattr"), jacs: pick("jac"),
              shapes: pick("shape"), patterns: pick("pattern"), evundoc: vec![], spforms: pick("spform"),
-             evlists: pick("evlist") };
+             evlists: pick("evlist"), jacsrcs: pick("jacsrc") };
+    tb.jacsrcs.sort_by_key(|s| (s.jac.clone(), s.sp.clone()));
     tb.evlists.sort_by_key(|s| (s.evs.len(), s.evs.iter().map(|e| (e.terminal.clone(), e.direction.clone())).collect::<Vec<_>>()));
     tb.spforms.sort_by_key(|s| s.form.clone());
     tb.evundoc = tb.evattrs.iter().filter(|s| !s.doc).cloned().collect();
